@@ -101,7 +101,7 @@ def sub_tx(case):
                         alt = _bip143_swapped(r0, idx, ref, ht)
                     cls = 'hashOutputs_single_none_swapped' if alt is not None and alt == got else 'unexplained'
                     dev('signature_hash_bip143|hashtype=%s|%s' % (
-                        {2: 'NONE', 3: 'SINGLE'}[base] + ('|ACP' if ht & 0x80 else ''), cls),
+                        {1: 'ALL', 2: 'NONE', 3: 'SINGLE'}.get(base, hex(base)) + ('|ACP' if ht & 0x80 else ''), cls),
                         {'input': idx, 'kind': inp['kind'], 'ht': ht, 'expected': exp.hex(),
                          'got': got.hex() if isinstance(got, bytes) else got})
                     out('ht_dev')
